@@ -464,6 +464,15 @@ func VerifC14LegacySelect() {
 	verifFindings(specs, groups, v6)
 	ip, err := sel.Select(seed, 1, libver, v6)
 	verifCheckResult(ip, err, v6, specs, groups, "legacy-select")
+	// a result that the caller keeps is not changed by a later selection for another client
+	var kept []byte
+	if err == nil && ip != nil && ip.IP() != nil {
+		kept = append(kept, (*ip.IP())...)
+		other := verifnd.Bytes("other-seed", 16)
+		verifnd.Cut("legacy-seed-varint-is-one-byte", other[0] < 0x80)
+		_, _ = sel.Select(other, 1, libver, v6)
+		verifnd.Assert(verifnd.BytesEq(*ip.IP(), kept), "C14.legacy-select.kept-result-not-changed-by-a-later-selection")
+	}
 	ip2, err2 := sel.Select(seed, 1, libver, v6)
 	verifnd.Assert((err == nil) == (err2 == nil), "C14.legacy-select.repeat.err")
 	if err == nil && err2 == nil && ip != nil && ip2 != nil && ip.IP() != nil && ip2.IP() != nil {
